@@ -10,6 +10,9 @@ spec `PV.Spec.Ini` (documented format as an AST, `render`, `meaning`, `WF`).
 fuel, no `partial`, no well-founded recursion.  That Lean accepted the definitions *is* the proof that
 parsing terminates on every byte string; the theorems below therefore quantify over all `input : Bytes`.
 
+**Life cycle.** `Handle` / `fileParse` model the object (section (e)); `fileParseClose` additionally scripts the result of
+the final `fclose` and counts the `fclose` calls and warning lines (`close_failure_is_harmless`; op `lifec` of the check).
+
 Not covered here (see the check's assumptions): glibc's `sscanf`/`fgets`/`isspace`/`atoi` agreeing
 with `scan`/`splitLines`/`isSpace`/`atoi`; `p_strtod` (modelled on `Float`, compared bit for bit by the
 differential run only, no theorem).
